@@ -217,6 +217,20 @@ Definition ins_cmd_ok (k : key) (s : ts) (c : cmd) : bool :=
   end.
 Definition ins_discipline (cmds : list cmd) (k : key) (s : ts) : bool := forallb (ins_cmd_ok k s) cmds.
 
+(* locking reads: what a pessimistic lock request returns for a key (return_values) *)
+Fixpoint newest_data (ws : list write) : option write :=
+  match ws with [] => None | w :: r => if is_data w then Some w else newest_data r end.
+(* an empty Put value reads as "no value" in the lock response (the mock's retVal stays nil) *)
+Definition nonempty (v : option value) : option value :=
+  match v with Some x => if x =? 0 then None else Some x | None => None end.
+Definition data_val (w : write) : option value :=
+  match w_kind w with WPut => nonempty (Some (w_value w)) | _ => None end.
+Definition newest_val (ws : list write) : option value :=
+  match newest_data ws with Some w => data_val w | None => None end.
+Definition is_some {A} (o : option A) : bool := match o with Some _ => true | None => false end.
+(* commit ts of the newest record of any kind (the conflict ts a forced lock reports) *)
+Definition head_commit (ws : list write) : ts := match ws with w :: _ => w_commit w | [] => 0 end.
+
 (* ------------------------------------------------------------------ external consistency: event order *)
 Inductive ev :=
 | EvTso (t : ts)                   (* the oracle issued t *)
